@@ -296,6 +296,12 @@ CREATE OR REPLACE MACRO vtl_tp_shift(p vtl_time_period, n INTEGER) AS (
         WHEN 'A' THEN
             vtl_period_to_string({'year': p.year + n,
                 'period_indicator': 'A', 'period_number': 1}::vtl_time_period)
+        -- Weeks and days: the number of periods in a year depends on the year (52/53 ISO weeks,
+        -- 365/366 days), so shift through the calendar instead of a fixed modulus.
+        WHEN 'W' THEN
+            vtl_time_agg_date(vtl_tp_start_date(p) + INTERVAL (7 * n) DAY, 'W')
+        WHEN 'D' THEN
+            vtl_time_agg_date(vtl_tp_start_date(p) + INTERVAL (n) DAY, 'D')
         ELSE
             vtl_period_to_string({
                 'year': p.year + CASE
